@@ -28,6 +28,57 @@ use crate::world::{World, hash_bytes};
 const SIG: usize = 96;
 // `by` = -1: a key outside the epoch (any negative index other than GARBLED)
 const GARBLED: i64 = -2;
+const TORSION: i64 = -3;
+
+/// `sig + T`, where T is a low-order point of E(Fp) outside the prime-order subgroup G1: still a
+/// point on the curve (decodable as an aggregate), a different byte string, nobody's signature.
+/// The pairing equation alone cannot tell it from `sig` (e(T, Q) = 1); only the subgroup check does.
+fn add_low_order_point(sig_bytes: &[u8; SIG]) -> [u8; SIG] {
+    use blst::{
+        BLST_ERROR, blst_p1, blst_p1_add_or_double, blst_p1_affine, blst_p1_affine_in_g1,
+        blst_p1_deserialize, blst_p1_from_affine, blst_p1_is_inf, blst_p1_mult, blst_p1_serialize,
+        blst_p1_uncompress,
+    };
+    // order r of G1, little-endian
+    const R_LE: [u8; 32] = [
+        0x01, 0x00, 0x00, 0x00, 0xff, 0xff, 0xff, 0xff, 0xfe, 0x5b, 0xfe, 0xff, 0x02, 0xa4, 0xbd,
+        0x53, 0x05, 0xd8, 0xa1, 0x09, 0x08, 0xd8, 0x39, 0x33, 0x48, 0x7d, 0x9d, 0x29, 0x53, 0xa7,
+        0xed, 0x73,
+    ];
+    // SAFETY: plain FFI calls on properly sized, initialised buffers.
+    unsafe {
+        let mut sig_aff = blst_p1_affine::default();
+        let res = blst_p1_deserialize(&mut sig_aff, sig_bytes.as_ptr());
+        assert_eq!(res, BLST_ERROR::BLST_SUCCESS, "signature bytes must be a curve point");
+        let mut sig = blst_p1::default();
+        blst_p1_from_affine(&mut sig, &sig_aff);
+        let mut compressed = [0u8; 48];
+        compressed[0] = 0x80;
+        for x in 1..=u8::MAX {
+            compressed[47] = x;
+            let mut p_aff = blst_p1_affine::default();
+            let res = blst_p1_uncompress(&mut p_aff, compressed.as_ptr());
+            if res != BLST_ERROR::BLST_SUCCESS || blst_p1_affine_in_g1(&p_aff) {
+                continue;
+            }
+            let mut pnt = blst_p1::default();
+            blst_p1_from_affine(&mut pnt, &p_aff);
+            // t = r * p is killed by the cofactor: low order, outside G1
+            let mut t = blst_p1::default();
+            blst_p1_mult(&mut t, &pnt, R_LE.as_ptr(), 255);
+            if blst_p1_is_inf(&t) {
+                continue;
+            }
+            let mut out = blst_p1::default();
+            blst_p1_add_or_double(&mut out, &sig, &t);
+            let mut out_bytes = [0u8; SIG];
+            blst_p1_serialize(out_bytes.as_mut_ptr(), &out);
+            assert_ne!(&out_bytes, sig_bytes);
+            return out_bytes;
+        }
+    }
+    panic!("no low-order point found");
+}
 
 fn panic_msg(e: Box<dyn std::any::Any + Send>) -> String {
     if let Some(s) = e.downcast_ref::<&str>() {
@@ -133,16 +184,21 @@ impl AuthDriver {
         out
     }
 
-    fn sig_of(&mut self, sg: &Value) -> (i64, [u8; SIG]) {
+    /// `owner`: whose real signature an altered one (GARBLED / TORSION) is derived from.
+    fn sig_of(&mut self, sg: &Value, owner: i64) -> (i64, [u8; SIG]) {
         let by = sg["by"].as_i64().expect("sig.by");
         let k = sg["k"].as_str().expect("sig.k").to_string();
         let s = sg["s"].as_u64().expect("sig.s");
         let h = sg["h"].as_str().expect("sig.h").to_string();
         if by == GARBLED {
-            // altered bytes of validator 0's signature over that payload
-            let mut b = self.sig_bytes(0, &k, s, &h);
+            // one bit of the owner's signature over that payload flipped
+            let mut b = self.sig_bytes(owner, &k, s, &h);
             b[SIG - 1] ^= 1;
             (by, b)
+        } else if by == TORSION {
+            // the owner's signature over that payload plus a low-order point outside G1
+            let b = self.sig_bytes(owner, &k, s, &h);
+            (by, add_low_order_point(&b))
         } else {
             (by, self.sig_bytes(by, &k, s, &h))
         }
@@ -153,7 +209,7 @@ impl AuthDriver {
         if let Some(x) = self.isig_cache.get(&key) {
             return *x;
         }
-        let (_, b) = self.sig_of(sg);
+        let (_, b) = self.sig_of(sg, 0);
         let x: IndividualSignature = wincode::deserialize(&b).expect("real signature must decode");
         self.isig_cache.insert(key, x);
         x
@@ -169,20 +225,26 @@ impl AuthDriver {
             let h = self.world.hash(m["h"].as_str().expect("h"));
             out.extend_from_slice(&hash_bytes(&h));
         }
-        let (_, sg) = self.sig_of(&m["sig"]);
+        let v = m["v"].as_i64().expect("v");
+        let owner = if v >= 0 && (v as usize) < self.world.n { v } else { 0 };
+        let (_, sg) = self.sig_of(&m["sig"], owner);
         out.extend_from_slice(&sg);
-        out.extend_from_slice(&wire_index(m["v"].as_i64().expect("v")).to_le_bytes());
+        out.extend_from_slice(&wire_index(v).to_le_bytes());
         out
     }
 
-    /// Aggregate of the bag (members of `dup` twice); garbled member = altered bytes.
+    /// Aggregate of the bag (members of `dup` twice); garbled member = one bit of the aggregate
+    /// flipped; torsion member = a low-order point outside G1 added to the aggregate.
     fn agg_bytes(&mut self, half: &Value) -> [u8; SIG] {
         let mut members: Vec<Value> = Vec::new();
         let mut garbled = false;
+        let mut torsion = false;
         for part in ["bag", "dup"] {
             for sg in half[part].as_array().expect("bag") {
                 if sg["by"].as_i64() == Some(GARBLED) {
                     garbled = true;
+                } else if sg["by"].as_i64() == Some(TORSION) {
+                    torsion = true;
                 } else {
                     members.push(sg.clone());
                 }
@@ -211,6 +273,9 @@ impl AuthDriver {
             self.agg_cache.insert(key, b);
             b
         };
+        if torsion {
+            out = add_low_order_point(&out);
+        }
         if garbled {
             out[SIG - 1] ^= 1;
         }
